@@ -796,7 +796,7 @@ def run(ck: Check) -> None:
     ck.prove()
     ck.assumptions += [
         "CPython's str.isidentifier / re \\w / str.isnumeric / keyword.iskeyword and hasattr(pydantic.BaseModel, ·) are the generated tables of Dcg/Gen/Unicode read by Dcg/Py/{Chars,Ident} (validated in this run, character by character and on whole strings)",
-        "str.lower / str.upper enter the theorems as parameters satisfying CaseOK (identifier in, identifier out, no leading underscore created); CaseOK of CPython's maps is checked exhaustively by the translator (Gen.Unicode.caseViolations = []), not by the kernel; the executable model lowers character-wise, so names containing a capital sigma under snake-case/capitalise are counted as unmodelled",
+        "str.lower / str.upper enter the theorems as parameters satisfying CaseOK (identifier in, identifier out, no leading underscore created); CaseOK is proved in Lean for the character-wise maps regenerated from the interpreter (python_case_maps_ok) and additionally checked exhaustively by the translator (Gen.Unicode.caseViolations = []); the final-sigma context rule of str.lower is not modelled (both images are XID_Start: finalSigma_ok), names containing a capital sigma under snake-case/capitalise are counted as unmodelled in the correspondence",
         "the special field-name prefix is a non-empty identifier that does not start with '_' (PrefixOK); other prefixes are the user's explicit choice and only termination/parsability is required of them end to end",
         "Python NFKC-normalises identifiers when it compiles the emitted module; the string-level model does not (known finding D21 covers names that are not NFKC-stable)",
         "dataclass output has no alias mechanism (the statement only requires alias/key preservation for pydantic, msgspec and TypedDict); msgspec is not installed and is checked on the syntax tree only",
